@@ -2,6 +2,7 @@ package main
 
 import (
 	"fmt"
+	"go/token"
 	"go/types"
 	"sort"
 	"strings"
@@ -104,6 +105,23 @@ func verifyFunc(prog *ssa.Program, fn *ssa.Function, ctr *Contract, all map[stri
 		}
 		e.assumeRangeDeep("true", v, 0)
 		e.preBound(v, 0)
+		for _, pf := range ctr.PureFns {
+			if pf != p.Name() {
+				continue
+			}
+			sig, isSig := p.Type().Underlying().(*types.Signature)
+			if !isSig || sig.Results().Len() != 1 {
+				panic("purefn: " + p.Name() + " is not a function with one result")
+			}
+			var ss []string
+			for i := 0; i < sig.Params().Len(); i++ {
+				ss = append(ss, e.sc.sortOf(sig.Params().At(i).Type()))
+			}
+			v.uf = "uf_" + p.Name()
+			e.decls = append(e.decls, fmt.Sprintf("(declare-fun %s (%s) %s)", v.uf, strings.Join(ss, " "), e.sc.sortOf(sig.Results().At(0).Type())))
+			e.declared[v.uf] = true
+			e.noteAssumed("function parameter " + p.Name() + " of " + name + " is assumed pure (modelled as an uninterpreted function)")
+		}
 		if g, ok := ctr.Callbacks[p.Name()]; ok {
 			sig, isSig := p.Type().Underlying().(*types.Signature)
 			if !isSig || sig.Params().Len() < 1 {
@@ -115,6 +133,28 @@ func verifyFunc(prog *ssa.Program, fn *ssa.Function, ctr *Contract, all map[stri
 		f.vals[p] = v
 		f.params[p.Name()] = v
 		e.paramSyms = append(e.paramSyms, paramSym{p.Name(), t, p.Type()})
+	}
+	for cn, set := range ctr.GhostCalls {
+		// pre-register the ghost set's sort from the callee's first non-receiver parameter
+		var target *ssa.Function
+		if shortFn(fn) == cn || fn.Name() == cn {
+			target = fn
+		} else {
+			for cand := range ssautil.AllFunctions(prog) {
+				if cand.Pkg == fn.Pkg && (shortFn(cand) == cn || cand.Name() == cn) && !strings.Contains(cand.Name(), "$") {
+					target = cand
+					break
+				}
+			}
+		}
+		if target == nil {
+			panic("ghostcall: no function " + cn)
+		}
+		ai := ghostArgIndex(target, ctr.GhostArg[cn])
+		if ai >= len(target.Params) {
+			panic("ghostcall: " + cn + " has no argument")
+		}
+		e.hsort["G_"+set] = fmt.Sprintf("(Array %s Bool)", e.sc.sortOf(target.Params[ai].Type()))
 	}
 	if len(fn.FreeVars) > 0 {
 		panic("function under contract has free variables")
@@ -129,6 +169,50 @@ func verifyFunc(prog *ssa.Program, fn *ssa.Function, ctr *Contract, all map[stri
 		e.noteAssumed("axiom (ghost definition, unchecked) in " + name + ": " + a.Src)
 	}
 	dreq, dens := e.derived(fn, ctr)
+	hasSliceMark := false
+	for _, tr := range ctr.Traverses {
+		if tr.Mode == "mark" {
+			se := &specEnv{f: &frame{e: e, fn: fn}, pkg: fn.Pkg.Pkg}
+			if _, ok := se.typeByName(tr.Handle).Underlying().(*types.Slice); ok {
+				hasSliceMark = true
+			}
+		}
+	}
+	if ds := e.derivedSteps[ctr]; len(ds) > 0 || hasSliceMark {
+		// the type-derived step clauses become part of this run's view of the contract
+		c2 := *ctr
+		c2.Loops = map[int]LoopSpec{}
+		for k, ls := range ctr.Loops {
+			c2.Loops[k] = ls
+		}
+		for k, cl := range ds {
+			ls := c2.Loops[k]
+			ls.Steps = append(append([]Clause{}, ls.Steps...), cl...)
+			c2.Loops[k] = ls
+		}
+		// inner `for _, c := range x.Cases` loops: the marks made so far are an
+		// automatic (checked) invariant, so that the element's step clause about
+		// every case body can be concluded at the inner loop's exit
+		for _, tr := range ctr.Traverses {
+			if tr.Mode != "stepmark" && tr.Mode != "mark" {
+				continue
+			}
+			se := &specEnv{f: &frame{e: e, fn: fn}, pkg: fn.Pkg.Pkg}
+			h := se.typeByName(tr.Handle)
+			if _, ok := h.Underlying().(*types.Slice); !ok {
+				continue
+			}
+			for k, cls := range autoRangeInvariants(fn, tr, h, ctr.Except) {
+				if k == tr.Loop && tr.Mode == "stepmark" {
+					continue
+				}
+				ls := c2.Loops[k]
+				ls.Invariants = append(append([]Clause{}, ls.Invariants...), cls...)
+				c2.Loops[k] = ls
+			}
+		}
+		f.ctr = &c2
+	}
 	requires := append(append([]Clause{}, ctr.Requires...), dreq...)
 	ensures := append(append([]Clause{}, ctr.Ensures...), dens...)
 	for _, r := range requires {
@@ -407,4 +491,110 @@ func (f *frame) frameObligation(r retPoint, st0 *State, ri int) {
 		prop = "(and " + strings.Join(conj, " ") + ")"
 	}
 	e.oblige("frame", g, fmt.Sprintf("ret%d", ri), r.reach, prop)
+}
+
+// autoRangeInvariants finds the range loops over a slice of structs that hold
+// the handle type and returns, per loop ordinal, the invariant "the handle
+// fields of the elements processed so far are marked".
+func autoRangeInvariants(fn *ssa.Function, tr Traverse, h types.Type, except []string) map[int][]Clause {
+	out := map[int][]Clause{}
+	be := backEdges(fn)
+	ords := loopOrdinals(fn, be)
+	for hdrIdx, k := range ords {
+		hb := fn.Blocks[hdrIdx]
+		var ri *ssa.Phi
+		for _, ins := range hb.Instrs {
+			if phi, ok := ins.(*ssa.Phi); ok && phi.Comment == "rangeindex" {
+				ri = phi
+			}
+		}
+		if ri == nil {
+			continue
+		}
+		// the incremented index (rangeindex + 1)
+		var inc ssa.Value
+		for _, ins := range hb.Instrs {
+			if b, ok := ins.(*ssa.BinOp); ok && b.X == ri {
+				inc = b
+			}
+		}
+		if inc == nil {
+			continue
+		}
+		seen := map[string]bool{}
+		for _, b := range fn.Blocks {
+			for _, ins := range b.Instrs {
+				var x ssa.Value
+				switch v := ins.(type) {
+				case *ssa.IndexAddr:
+					if v.Index == inc {
+						x = v.X
+					}
+				case *ssa.Index:
+					if v.Index == inc {
+						x = v.X
+					}
+				}
+				if x == nil {
+					continue
+				}
+				sl, ok := x.Type().Underlying().(*types.Slice)
+				if !ok {
+					continue
+				}
+				st, ok := sl.Elem().Underlying().(*types.Struct)
+				if !ok {
+					continue
+				}
+				// name the ranged slice by a register that is available at the loop header
+				xname := ""
+				if xi, isInstr := x.(ssa.Instruction); !isInstr || xi.Block().Dominates(hb) && xi.Block() != hb {
+					xname = "ssa_" + x.Name()
+				} else if fl, ok := x.(*ssa.Field); ok {
+					if yi, isInstr := fl.X.(ssa.Instruction); !isInstr || yi.Block().Dominates(hb) && yi.Block() != hb {
+						yst := fl.X.Type().Underlying().(*types.Struct)
+						xname = "ssa_" + fl.X.Name() + "." + yst.Field(fl.Field).Name()
+					}
+				}
+				if xname == "" {
+					// a load of a field of a local struct cell: *(&cell.F)
+					if ld, ok := x.(*ssa.UnOp); ok && ld.Op == token.MUL {
+						if fa, ok := ld.X.(*ssa.FieldAddr); ok {
+							if yi, isInstr := fa.X.(ssa.Instruction); !isInstr || yi.Block().Dominates(hb) && yi.Block() != hb {
+								if pt, ok := fa.X.Type().Underlying().(*types.Pointer); ok {
+									if yst, ok := pt.Elem().Underlying().(*types.Struct); ok {
+										xname = "ssa_" + fa.X.Name() + "." + yst.Field(fa.Field).Name()
+									}
+								}
+							}
+						}
+					}
+				}
+				if xname == "" {
+					continue
+				}
+				skip := false
+				for _, ex := range except {
+					if i := strings.LastIndex(xname, "."); i >= 0 && (strings.HasSuffix(ex, xname[i:]) || ex == xname[i+1:]) {
+						skip = true // the path through this slice is excluded from the traversal
+					}
+				}
+				if skip {
+					continue
+				}
+				for i := 0; i < st.NumFields(); i++ {
+					if sameHandle(st.Field(i).Type(), h) && !seen[x.Name()+st.Field(i).Name()] {
+						seen[x.Name()+st.Field(i).Name()] = true
+						elem := xname + "[j]"
+						if tr.Mode == "mark" {
+							elem = "oldelem(" + xname + ", j)"
+						}
+						mark := "(" + strings.ReplaceAll(tr.Expr, "$", elem+"."+st.Field(i).Name()) + ")"
+						out[k] = append(out[k], Clause{Label: "auto-marked:" + st.Field(i).Name(), Src: "forall j int :: 0 <= j && j <= rangeindex ==> " + mark})
+					}
+				}
+			}
+		}
+	}
+	return out
 }
